@@ -5,7 +5,7 @@ from __future__ import annotations
 from hypothesis import strategies as st
 
 from vlib import enumer, gen_ops
-from vlib.core import Part
+from vlib.core import Part, optimized_part
 from vlib.ops import Engine, engine_known, flush_excluded
 
 ID = "C04"
@@ -184,7 +184,7 @@ def enum_two_step(tier):
 @st.composite
 def hyp_cases(draw, tier):
     typed = draw(st.booleans())
-    flavour = draw(st.sampled_from(["str", "str", "tuple", "dc", "obj_cb", "dictwrap", "obj_fwd"]))
+    flavour = draw(st.sampled_from(["str", "str", "tuple", "dc", "obj_cb", "dictwrap", "obj_fwd", "obj_sub", "int"]))
     case = draw(gen_ops.histories(typed=typed, max_ops=40 if tier == "quick" else 80, fresh=flavour != "str", big=8))
     case["flavour"] = flavour
     return case
@@ -206,4 +206,5 @@ PARTS = [
     Part("two-step-clones", run_history, enum=enum_two_step),
     Part("histories", run_history, strategy=hyp_cases, n={"quick": 600, "thorough": 120000}),
     Part("big-trees", run_history, strategy=big_cases, n={"quick": 300, "thorough": 20000}),
+    optimized_part("C04", ['single-steps', 'histories']),
 ]
